@@ -154,6 +154,10 @@
 (lemma pow2_le_32 (forall ((n Int)) (=> (and (<= 0 n) (<= n 32)) (<= (bits.pow2 n) 4294967296)))
   :lemmas (pow2_32 pow2_mono))
 
+(lemma pow2_62 (= (bits.pow2 62) 4611686018427387904) :lemmas (pow2_32 pow2_step))
+(lemma pow2_le_62 (forall ((n Int)) (=> (<= n 62) (<= (bits.pow2 n) 4611686018427387904)))
+  :lemmas (pow2_62 pow2_mono) :reveal (bits.pow2))
+
 (lemma pow2_254 (= (bits.pow2 254) 28948022309329048855892746252171976963317496166410141009864396001978282409984) :reveal (bits.pow2))
 (lemma pow2_256 (= (bits.pow2 256) 115792089237316195423570985008687907853269984665640564039457584007913129639936) :lemmas (pow2_254 pow2_step))
 
